@@ -193,6 +193,9 @@ def oracle(ctx):
             elif m[0] == 'kv':
                 vv = v.replace('"', '_').replace('\\', '_')
                 line = f'{key}="N1={vv}" N2=2'
+                if rnd.random() < 0.5:
+                    # the same name assigned before with another value (same line or an earlier line): the last one counts
+                    line = rnd.choice([f'{key}=N1=stale\n{line}', f'{key}=N1=stale "N1={vv}" N2=2', f'{key}=N2=stale N1=stale\n{line}'])
                 exp_v = [f'N1={vv}', 'N2=2']
             elif m[0] == 'all':
                 line = f'{key}={dq(v)}'
